@@ -309,6 +309,31 @@ contains
        end do
        call sim_phase(1); r = char_arr_len(names, int(a, C_INT)); call sim_phase(0); call res_int(int(r)); deallocate(names)
 #ifndef SIMC
+    case ("str_ptr_in")
+       allocate(character(len=a) :: buf); buf = text(1:min(a, len(text)))
+       call sim_phase(1); r = str_ptr_in(buf); call sim_phase(0); call res_int(int(r)); deallocate(buf)
+#endif
+#ifndef SIMC
+    case ("str_val_in")
+       allocate(character(len=a) :: buf); buf = text(1:min(a, len(text)))
+       call sim_phase(1); r = str_val_in(buf); call sim_phase(0); call res_int(int(r)); deallocate(buf)
+#endif
+#ifndef SIMC
+    case ("char_ret_len")
+       call sim_phase(1); s = char_ret_len(int(a, C_INT)); call sim_phase(0); call res_str(s); deallocate(s)
+#endif
+#ifndef SIMC
+    case ("char_ret_null")
+       call sim_phase(1); s = char_ret_null(int(a, C_INT)); call sim_phase(0); call res_str(s); deallocate(s)
+#endif
+#ifndef SIMC
+    case ("vec_iota_d")
+       allocate(dv(a)); dv = -7.0d0
+       call sim_phase(1); call vec_iota_d(dv); call sim_phase(0)
+       sm = 0; if (a > 0) sm = int(sum(dv) * 2)
+       call res_arr(size(dv), sm); deallocate(dv)
+#endif
+#ifndef SIMC
     case ("ref_item")
        call sim_phase(1); h(a) = ref_item(); call sim_phase(0); call res_none()
 #endif
